@@ -82,7 +82,9 @@ class Stream:
 
 def write_trace(tracedir, streams, order=None):
     """Writes the streams; `order` permutes the creation order of thread dirs."""
-    if os.path.exists(tracedir):
+    if os.path.islink(tracedir):
+        os.unlink(tracedir)
+    elif os.path.exists(tracedir):
         shutil.rmtree(tracedir)
     os.makedirs(tracedir)
     idx = list(range(len(streams)))
